@@ -11,7 +11,7 @@ KEYS = [1, 2, 3]
 PROBES = [("probe_persist", "asan", None, ["utest"])]
 
 MANIFEST = dict(
-    text='TLC checks the syscall-grain file-store design (FileStore.tla) under a crash between any two system calls for all store sequences up to the bound, and shows that each named deviation breaks an invariant. Every store sequence TLC explores is executed on the real FilePersister with write/lseek interposed; every system-call boundary is materialised as a disk image, reopened with a fresh FilePersister and interrogated; TLC validates each recorded execution against the C27 monitor.',
+    text='TLC checks the syscall-grain file-store design (FileStore.tla) under a crash between any two system calls for all store sequences up to the bound, and shows that each named deviation breaks an invariant. Every store sequence TLC explores is executed on the real FilePersister with write/lseek interposed; every system-call boundary is materialised as a disk image, reopened with a fresh FilePersister, interrogated, stored to, restarted cleanly once more and interrogated again; TLC validates each recorded execution against the C27 monitor.',
     note='Crash model of the property statement (between completed system calls, no torn writes). Trusts TLC, the syscall seam, ASan/UBSan.',
     tech='TLA+ crash-consistency design spec + TLC; exhaustive crash-point enumeration on the real code via syscall seam; TLC trace validation',
     ref='5.9, 6 C27')
@@ -24,6 +24,11 @@ def after_ops(seqs_used, inflight_hint, base_id):
     ops += [{"op": "Put", "seq": inflight_hint, "id": base_id}, {"op": "Put", "seq": 9, "id": base_id + 1},
             {"op": "PutCtrl", "s": 77, "r": 78},
             {"op": "Get", "seq": inflight_hint}, {"op": "Get", "seq": 9}, {"op": "GetCtrl"}, {"op": "Last"}]
+    # and after an orderly restart of the process that recovered: everything again (what a recovered process stores must
+    # be as durable as what the first one stored)
+    ops += [{"op": "ReopenAgain"}]
+    ops += [{"op": "Get", "seq": k} for k in sorted(set(seqs_used) | {inflight_hint, 9})]
+    ops += [{"op": "GetCtrl"}, {"op": "Last"}, {"op": "PutCtrl", "s": 81, "r": 82}, {"op": "GetCtrl"}]
     return ops
 
 
